@@ -43,5 +43,6 @@ fn main() {
             std::process::exit(3);
         }
     }
+    eprintln!("zb: max scheduler steps in one case: {}", harness::sched::MAX_CASE_STEPS.load(std::sync::atomic::Ordering::Relaxed));
     ctx.finish();
 }
